@@ -100,6 +100,13 @@ def cli_cases(rng, n):
             out.append(("btcdeb", ["--tx=1.5:" + d, "--select=0", "[OP_1]"], None))
             out.append(("tap", ["--tx=" + d, "--txin=" + c["fund"], "f30544d6009c8d8d94f5d030b2e844b1a3ca036255161c479db1cca5b374dd1c", "1", "51", "0"], None))
             out.append(("tap", ["--tx=" + c["spend"], "--txin=" + d, "f30544d6009c8d8d94f5d030b2e844b1a3ca036255161c479db1cca5b374dd1c", "1", "51"], None))
+    # pushes at the top of the legal size (the listing used a 1024-byte line buffer: F55), as bracket text and as raw script, for btcdeb and tap
+    for nb in (507, 508, 509, 510, 515, 519, 520, 521):
+        big = "ab" * nb
+        out.append(("btcdeb", ["[0x%s OP_DROP OP_1]" % big], None)); out.append(("btcdeb", ["[OP_1 OP_IF 0x%s OP_ENDIF]" % big, "0x" + big], None))
+        out.append(("btcdeb", ["0x4d" + nb.to_bytes(2, "little").hex() + big + "7551"], None)); out.append(("btcdeb", ["-v", "[0x%s]" % big], None))
+        out.append(("btcc", ["0x" + big, "[0x%s OP_SIZE]" % big], None))
+        out.append(("tap", ["f30544d6009c8d8d94f5d030b2e844b1a3ca036255161c479db1cca5b374dd1c", "1", "[0x%s OP_DROP OP_1]" % big, "0"], None))
     # a selected / matching input that references an output the funding transaction does not have
     import hashlib
     fund1 = T.make_tx(2, [(bytes(range(32)), 0, b"", 0xffffffff)], [(1000, b"\x51")], 0)
@@ -262,10 +269,13 @@ def main(tier):
             walk = ["step"] * k + ["rewind"] * (k + rng.randrange(0, 3)) + ["print", "step", "step", "rewind", "exec OP_1 OP_ADD", "rewind", "rewind", "print", "stack"]
             if rng.random() < 0.5: rng.shuffle(walk)
             sessions.append(([scr] + rng.choice([[], ["0x0102030405"], ["-1"]]), walk))
+    # sessions in a working directory whose history file cannot be opened (F56)
+    for scr in ("[OP_1 OP_2 OP_ADD]", "0x5152935387"):
+        sessions.append(([scr], ["step", "print", "tf echo 5", "exec OP_DUP", "rewind", "step", "stack"], (".btcdeb_history",)))
     def run_pty(t):
-        argv, cmds = t
+        argv, cmds = t[0], t[1]
         try:
-            banner, outs, status = ptyrun.repl(os.path.join(bdir, "btcdeb"), argv, cmds, timeout=10.0, env=ENV)
+            banner, outs, status = ptyrun.repl(os.path.join(bdir, "btcdeb"), argv, cmds, timeout=10.0, env=ENV, mkdirs=(t[2] if len(t) > 2 else ()))
         except Exception as ex:
             return True, "driver: %r" % ex, None
         txt = (banner + "".join(o or "" for _, o in outs)).encode("latin1", "replace")
@@ -275,7 +285,8 @@ def main(tier):
         return bad, txt[-1500:].decode("latin1"), sig
     st = chk.streams.setdefault("san:repl", {"cases": 0, "diffs": 0, "known": 0})
     with concurrent.futures.ThreadPoolExecutor(vlib.NCPU) as ex:
-        for (argv, cmds), (bad, tail, sig) in zip(sessions, ex.map(run_pty, sessions)):
+        for t_, (bad, tail, sig) in zip(sessions, ex.map(run_pty, sessions)):
+            argv, cmds = t_[0], t_[1]
             st["cases"] += 1; chk.evaluations += 1; chk.nontrivial.add(repr((argv, cmds)).encode())
             if bad:
                 st["diffs"] += 1
